@@ -175,6 +175,9 @@ type Rec struct {
 	// Scribble: overwrite the caller's slice after copying it (to catch a
 	// destination-side alias) — only used by aliasing monitors.
 	Limit int // if > 0, panic when more than Limit calls arrive (runaway guard)
+	// Watch, when set, runs at the start of every Write: what another goroutine using the same payload (a
+	// broadcast to several connections) would see while this destination is busy.
+	Watch func()
 }
 
 func NewRec() *Rec { return &Rec{FailAt: -1, ShortN: -1} }
@@ -183,6 +186,9 @@ func (r *Rec) Write(p []byte) (int, error) {
 	idx := len(r.Calls)
 	if r.Limit > 0 && idx > r.Limit {
 		panic("xport.Rec: runaway writer")
+	}
+	if r.Watch != nil {
+		r.Watch()
 	}
 	c := Call{Data: append([]byte(nil), p...), N: len(p)}
 	if r.FailAt >= 0 && (idx == r.FailAt || (r.Sticky && idx > r.FailAt)) {
